@@ -615,3 +615,17 @@ Definition run_check_inv (ce : kcase * kout) : bool :=
   run_check ce
   && inv_b (state_of_dump (snd (fst (fst ce))))
   && inv_b (state_of_dump (snd (snd ce))).
+
+(* ---------- runs across parameter changes ----------
+   The consensus parameters are not part of the ledger state: a governance
+   ChangeParameters proposal that takes effect replaces the parameter record and touches no
+   balance. A history with parameter changes is therefore a list of operations each carrying
+   the parameters in force when it runs (fee disbursement takes the weights of that moment). *)
+Definition run_params (s : state) (ops : list (params * op)) : state :=
+  fold_left (fun s po => snd (step (fst po) s (snd po))) ops s.
+
+Fixpoint burned_run_params (s : state) (ops : list (params * op)) : N :=
+  match ops with
+  | [] => 0
+  | (p, o) :: r => let '(c, s1) := step p s o in burned p o c + burned_run_params s1 r
+  end.
